@@ -12,6 +12,7 @@ import (
 	"context"
 	"flag"
 	"fmt"
+	"strings"
 	"sync"
 	"time"
 
@@ -35,14 +36,17 @@ func runStopRace(c stopRaceCase, res *hx.Result) {
 	inFS := map[*sfs.Handle]int{}
 	var releasedInUse []string
 	park := map[string]string{"attach": "attach", "clone": "walk", "walk": "walk", "create": "create", "open": "opendir", "stat": "stat",
-		"mkdir": "opendir", "mkdir-openfails": "opendir"}[c.Op]
+		"mkdir": "opendir", "mkdir-openfails": "opendir", "mkdir-openfails-queued": "opendir", "stat-queued-clunkfails": "stat"}[c.Op]
 	armed := false
 	fs.Decide = func(call string, h *sfs.Handle) sfs.Expect {
-		if call == "opendir" && c.Op == "mkdir-openfails" {
+		if call == "clunk" && c.Op == "stat-queued-clunkfails" {
+			return sfs.Expect{Call: call, Out: "fail"}
+		}
+		if call == "opendir" && strings.HasPrefix(c.Op, "mkdir-openfails") {
 			// the session's own OpenDir of the directory it has just created fails (it was cancelled)
 			return sfs.Expect{Call: call, Out: "fail"}
 		}
-		return sfs.Expect{Call: call, Out: "ok", K: 1, Dir: call != "create" || c.Op == "mkdir" || c.Op == "mkdir-openfails"}
+		return sfs.Expect{Call: call, Out: "ok", K: 1, Dir: call != "create" || strings.HasPrefix(c.Op, "mkdir")}
 	}
 	fs.Gate = func(ctx context.Context, enter bool, call string, h *sfs.Handle) {
 		mu.Lock()
@@ -108,7 +112,9 @@ func runStopRace(c stopRaceCase, res *hx.Result) {
 		m = p9p.MessageTwalk{Fid: 0, Newfid: 1, Wnames: []string{"a"}}
 	case "create":
 		m = p9p.MessageTcreate{Fid: 0, Name: "f", Perm: 0644, Mode: p9p.ORDWR}
-	case "mkdir", "mkdir-openfails":
+	case "stat-queued-clunkfails":
+		m = p9p.MessageTstat{Fid: 0}
+	case "mkdir", "mkdir-openfails", "mkdir-openfails-queued":
 		m = p9p.MessageTcreate{Fid: 0, Name: "d", Perm: p9p.DMDIR | 0755, Mode: p9p.OREAD}
 	case "open":
 		m = p9p.MessageTopen{Fid: 0, Mode: p9p.OREAD}
@@ -129,6 +135,13 @@ func runStopRace(c stopRaceCase, res *hx.Result) {
 			fail("park", fmt.Errorf("the FileSys call %s was never made", park))
 			return
 		}
+	}
+	if strings.HasSuffix(c.Op, "-queued") || c.Op == "stat-queued-clunkfails" {
+		// further requests on the same fid queue on its lock behind the parked one: a clunk, then a stat
+		ch.WriteFcall(bg, &p9p.Fcall{Type: p9p.Tclunk, Tag: 3, Message: p9p.MessageTclunk{Fid: 0}})
+		time.Sleep(3 * time.Millisecond)
+		ch.WriteFcall(bg, &p9p.Fcall{Type: p9p.Tstat, Tag: 4, Message: p9p.MessageTstat{Fid: 0}})
+		time.Sleep(5 * time.Millisecond)
 	}
 	switch c.Fault {
 	case "close":
@@ -194,7 +207,7 @@ func StopRace(args []string) {
 	res := hx.NewResult()
 	defer res.Write(*out)
 	var cases []stopRaceCase
-	for _, op := range []string{"attach", "clone", "walk", "create", "open", "stat", "mkdir", "mkdir-openfails"} {
+	for _, op := range []string{"attach", "clone", "walk", "create", "open", "stat", "mkdir", "mkdir-openfails", "mkdir-openfails-queued", "stat-queued-clunkfails"} {
 		for _, f := range []string{"close", "ctx", "readerr"} {
 			for _, d := range []int{0, 15} {
 				cases = append(cases, stopRaceCase{op, f, d, false})
